@@ -1,6 +1,6 @@
 """C05 - threaded trajectory analysis is schedule- and thread-count-independent (DESIGN.md section 5, C05)"""
 import os, re
-from vlib import core, ccv
+from vlib import core, ccv, native
 from vlib.core import Ob
 
 CDIR = os.path.join(core.VERIF, 'contracts', 'C05')
@@ -101,7 +101,35 @@ def job_conc(nt, nf, sync, budget=None):
                               route_note='CBMC threads, mutex = atomic test-and-set with blocking by assumption')
     for o in obs:
         o['functions'] = info
+    replay_schedule(obs, nt, sync)
     return obs
+
+
+def replay_schedule(obs, nt, sync):
+    """native replay of a refuted interleaving obligation: the REAL threaded CsgApplication (libvotca_csg built from the working tree) on a
+    7-frame trajectory, worker 0 delayed by 150 ms to force the schedule in which another worker reaches the reader first"""
+    bad = [o for o in obs if o['status'] == core.REFUTED]
+    if not bad:
+        return
+    try:
+        L = native.libs()
+        exe = native.build('C05.schedule', open(os.path.join(CDIR, 'replay_schedule.cc')).read(), [], sanitize=False, opt='-O1', extra=['-pthread', '-march=native'], libs=L + ['-pthread'])
+    except core.Undecided as e:
+        for o in bad:
+            o['replay'] = {'reproduced': False, 'error': str(e)}
+        return
+    for o in bad:
+        w = o.get('witness') or {}
+        budget = w.get('budget', -1)
+        tried, rep = [], None
+        for args in ([nt, 1 if sync else 0, 150, budget, 0], [nt, 1 if sync else 0, 0, budget, 0], [nt, 1 if sync else 0, 150, -1, 0], [max(nt, 3), 1 if sync else 0, 150, budget, 0]):
+            rc, out, err = native.execute(exe, args, timeout=180)
+            tried.append(' '.join(map(str, args)))
+            if rc != 0:
+                rep = {'reproduced': True, 'cmd': '%s %s' % (exe, ' '.join(map(str, args))), 'rc': rc, 'stderr': (err or '')[-600:],
+                       'against': 'real CsgApplication::Run/ProcessData/Worker::Run (libvotca_csg from the working tree), threads=%s, %s mode, worker 0 delayed %s ms, --nframes %s' % (args[0], 'ordered' if sync else 'unordered', args[2], args[3])}
+                break
+        o['replay'] = rep or {'reproduced': False, 'tried': tried, 'note': 'the native runs processed exactly the expected frames (the violating interleaving was not hit by the delayed-worker schedules tried)'}
 
 
 def collect(obs):
